@@ -190,6 +190,33 @@ impl<'a> Ctx<'a> {
                 }
             }
             24 => c(CardBody::CreateTable),
+            25 => {
+                // a native function VALUE called dynamically (the CallFunction path into native
+                // code), with a script callback that loops a little: sort/min/max or the
+                // harness' `callback`
+                let body_val = if self.rng.chance(1, 2) { "val" } else { "p" };
+                let looping = |arg_names: Vec<&str>, ret: &str, n: i64| {
+                    c(CardBody::Closure(Box::new(Function {
+                        arguments: arg_names.iter().map(|s| s.to_string()).collect(),
+                        cards: vec![
+                            Card::set_var("cnt", int(0)),
+                            bin(CardBody::While, bin(CardBody::Less, read(&"cnt".to_string()), int(n)),
+                                composite(vec![Card::set_var("cnt", bin(CardBody::Add, read(&"cnt".to_string()), int(1)))])),
+                            Card::return_card(read(&ret.to_string())),
+                        ],
+                    })))
+                };
+                let n = self.rng.range(0, 12);
+                let tv = self.table_vars();
+                if body_val == "val" && !tv.is_empty() {
+                    let t = read(self.rng.pick(&tv));
+                    let name = *self.rng.pick(&["__sort", "__min", "__max"]);
+                    Card::dynamic_call(c(CardBody::NativeFunction(name.into())), vec![t, looping(vec!["key", "val"], "val", n)])
+                } else {
+                    let arg = self.scalar();
+                    Card::dynamic_call(c(CardBody::NativeFunction("callback".into())), vec![looping(vec!["p"], "p", n), arg])
+                }
+            }
             _ => self.atom(),
         }
     }
